@@ -202,6 +202,10 @@ def families(tier):
                        + ("; symbolic step position in [0,1]" if kind == "step" else ""),
                 must_cover=["req:ok", "req:time-error"]))
         pat = "PPPRR" if q else "PPPPRR"
+        if kind == "step" and not q:
+            # symbolic gaps AND symbolic step position make the branch (r - t_i) / gap > step nonlinear; z3 answered
+            # 'unknown' for one path condition at 4 publications -> kept at 3 publications, where it is decided
+            pat = "PPPRR"
         fams.append(dict(
             name=f"{kind}:{pat}:symgaps", ref="vf.props.c11:h_interp",
             params={"kind": kind, "pattern": pat, "gaps": None},
